@@ -586,6 +586,12 @@ func simC13v6(c *sim.Ctx) {
 	for di := 0; di < nd; di++ {
 		id := uint32(7000 + di)
 		n := 16 + c.Draw(3000)
+		if c.Chance(40) {
+			// as large as an IPv6 datagram gets without a jumbo option: offsets and
+			// lengths near the top of 16 bits
+			n = 65527 - c.Draw(600)
+			c.Fault("maximal_datagram")
+		}
 		p := fill(uint64(di)*99991+uint64(n), n)
 		payloads[id] = p
 		nf := 2 + c.Draw(6)
